@@ -1297,3 +1297,226 @@ Proof. vm_compute. reflexivity. Qed.
 
 Lemma options_multiple_rejected c c' : parse_options (typing_opt c ++ B "," ++ typing_opt c') = Err EValue.
 Proof. destruct c, c'; vm_compute; reflexivity. Qed.
+
+(* ---------------------------------------------------------------- import bookkeeping covers every generic used *)
+Definition syntax (c : compiler) (t : ty) : syn := match c with C310 => syn310 t | _ => syn_plain c t end.
+
+Lemma syntax_wf c t : wf c t -> wf_syn false (syntax c t).
+Proof. destruct c; cbn [wf syntax]; intros H; [apply wf_syn_plain, H|apply wf_syn_plain, H|apply syn310_wf, H]. Qed.
+
+Lemma print_syntax c t : wf c t -> print c t = render_toks (toks (syntax c t)).
+Proof.
+  destruct c; cbn [wf syntax]; intros H.
+  - apply print_plain. discriminate.
+  - apply print_plain. discriminate.
+  - apply (print310_ok t H).
+Qed.
+
+Lemma lex_print c t : wf c t -> lex (print c t) = Some (toks (syntax c t)).
+Proof.
+  intros H. rewrite (print_syntax c t H). apply lex_render.
+  rewrite <- (app_nil_r (toks _)). apply (toks_good _ false); [apply syntax_wf, H|exact I|exact I].
+Qed.
+
+(* identifiers that are subscripted in a token list: the generics the text needs to have in scope *)
+Fixpoint heads (ts : list token) : list str :=
+  match ts with
+  | [] => []
+  | TkId h :: r => match r with TkLbr :: _ => h :: heads r | _ => heads r end
+  | _ :: r => heads r
+  end.
+
+Definition text_heads (s : str) : list str := match lex s with Some ts => heads ts | None => [] end.
+
+Fixpoint app_heads (y : syn) : list str :=
+  match y with
+  | YName _ | YNone => []
+  | YStr a => app_heads a
+  | YApp h l => h :: flat_map app_heads l
+  | YBar l => flat_map app_heads l
+  end.
+
+Definition H_toks (y : syn) : Prop :=
+  forall rest h, follow_atom rest -> In h (heads (toks y ++ rest)) -> In h (app_heads y) \/ In h (heads rest).
+
+Lemma heads_sepby sep l :
+  (forall x, follow_atom (sep :: x)) -> (forall x, heads (sep :: x) = heads x) ->
+  Forall H_toks l -> forall rest h, follow_atom rest ->
+  In h (heads (sepby sep (map toks l) ++ rest)) -> In h (flat_map app_heads l) \/ In h (heads rest).
+Proof.
+  intros Hs1 Hs2 HH. induction l as [|a l IH]; intros rest h Hf Hin; [right; exact Hin|].
+  inversion HH as [|? ? Ha Hl]; subst. destruct l as [|b l].
+  - cbn [map sepby] in Hin. destruct (Ha rest h Hf Hin) as [H|H]; [left; cbn [flat_map]; rewrite app_nil_r; exact H|right; exact H].
+  - cbn [map] in Hin. rewrite sepby_cons2 in Hin. rewrite <- app_assoc in Hin. cbn [app] in Hin.
+    change (toks b :: map toks l) with (map toks (b :: l)) in Hin.
+    destruct (Ha (sep :: sepby sep (map toks (b :: l)) ++ rest) h (Hs1 _) Hin) as [H|H].
+    + left. cbn [flat_map]. apply in_or_app. left. exact H.
+    + rewrite Hs2 in H.
+      destruct (IH Hl rest h Hf H) as [H2|H2]; [left; cbn [flat_map]; apply in_or_app; right; exact H2|right; exact H2].
+Qed.
+
+Lemma heads_toks y : H_toks y.
+Proof.
+  induction y as [n| |a IHa|hh l IHl|l IHl] using syn_ind'; intros rest h Hf Hin.
+  - cbn [toks app heads] in Hin. right. destruct rest as [|[] rest]; cbn in Hf; try contradiction; exact Hin.
+  - cbn [toks app heads] in Hin. right. destruct rest as [|[] rest]; cbn in Hf; try contradiction; exact Hin.
+  - cbn [toks app] in Hin. rewrite <- app_assoc in Hin. cbn [app heads] in Hin.
+    destruct (IHa (TkQuote :: rest) h I Hin) as [H|H]; [left; exact H|right; exact H].
+  - cbn [toks app] in Hin. rewrite <- app_assoc in Hin. cbn [app heads] in Hin.
+    destruct Hin as [<-|Hin]; [left; left; reflexivity|].
+    destruct (heads_sepby TkComma l (fun _ => I) (fun _ => eq_refl) IHl (TkRbr :: rest) h I Hin) as [H|H].
+    + left. right. exact H.
+    + right. exact H.
+  - cbn [toks] in Hin. destruct (heads_sepby TkBar l (fun _ => I) (fun _ => eq_refl) IHl rest h Hf Hin) as [H|H]; [left; exact H|right; exact H].
+Qed.
+
+Fixpoint ops (t : ty) : list op :=
+  match t with
+  | TName _ | TRef _ => []
+  | TOptional a => OOptional :: ops a
+  | TList a => OList :: ops a
+  | TDict k v => ODict :: ops k ++ ops v
+  | TUnion ts => OUnion :: flat_map ops ts
+  | TIterable a => OIterable :: ops a
+  | TAsyncIterable a => OAsyncIterable :: ops a
+  | TAsyncIterator a => OAsyncIterator :: ops a
+  end.
+
+Lemma adds_ops c t o : In o (ops t) -> incl (c_adds c o) (ty_adds c t).
+Proof.
+  induction t as [n|n|a IH|a IH|k v IHk IHv|l IHl|a IH|a IH|a IH] using ty_ind'; intros Hin x Hx;
+    cbn [ops ty_adds] in *; try contradiction;
+    try (destruct Hin as [<-|Hin]; [apply in_or_app; right; exact Hx|apply in_or_app; left; apply (IH Hin), Hx]).
+  - destruct Hin as [<-|Hin]; [apply in_or_app; right; apply in_or_app; right; exact Hx|].
+    apply in_app_or in Hin. destruct Hin as [Hin|Hin].
+    + apply in_or_app. left. apply (IHk Hin), Hx.
+    + apply in_or_app. right. apply in_or_app. left. apply (IHv Hin), Hx.
+  - destruct Hin as [<-|Hin]; [apply in_or_app; right; exact Hx|].
+    apply in_or_app. left. apply in_flat_map in Hin. destruct Hin as (a & Ha & Hin).
+    apply in_flat_map. exists a. split; [exact Ha|]. rewrite Forall_forall in IHl. apply (IHl a Ha Hin), Hx.
+Qed.
+
+Lemma plain_heads c t h : In h (app_heads (syn_plain c t)) -> exists o, In o (ops t) /\ h = hd c o.
+Proof.
+  induction t as [n|n|a IH|a IH|k v IHk IHv|l IHl|a IH|a IH|a IH] using ty_ind'; cbn [syn_plain app_heads flat_map ops];
+    intros Hin; try contradiction;
+    try (destruct Hin as [<-|Hin]; [eexists; split; [left; reflexivity|reflexivity]|];
+         rewrite app_nil_r in Hin; destruct (IH Hin) as (o & Ho & ->); exists o; split; [right; exact Ho|reflexivity]).
+  - destruct Hin as [<-|Hin]; [eexists; split; [left; reflexivity|reflexivity]|].
+    rewrite app_nil_r in Hin. apply in_app_or in Hin. destruct Hin as [Hin|Hin].
+    + destruct (IHk Hin) as (o & Ho & ->). exists o. split; [right; apply in_or_app; left; exact Ho|reflexivity].
+    + destruct (IHv Hin) as (o & Ho & ->). exists o. split; [right; apply in_or_app; right; exact Ho|reflexivity].
+  - destruct Hin as [<-|Hin]; [eexists; split; [left; reflexivity|reflexivity]|].
+    apply in_flat_map in Hin. destruct Hin as (y & Hy & Hin). apply in_map_iff in Hy. destruct Hy as (a & <- & Ha).
+    rewrite Forall_forall in IHl. destruct (IHl a Ha Hin) as (o & Ho & ->). exists o. split; [|reflexivity].
+    right. apply in_flat_map. exists a. split; assumption.
+Qed.
+
+Lemma heads_mkbar l h : In h (app_heads (mkbar l)) -> In h (flat_map app_heads l).
+Proof. destruct l as [|a [|b l]]; cbn [mkbar app_heads flat_map]; intros H; try exact H. rewrite app_nil_r. exact H. Qed.
+
+Lemma heads_alts y h : In h (flat_map app_heads (alts_of y)) -> In h (app_heads y).
+Proof. destruct y; cbn [alts_of flat_map app_heads]; intros H; try rewrite app_nil_r in H; exact H. Qed.
+
+Definition iter_op (o : op) : Prop := o <> OOptional /\ o <> OUnion.
+
+Lemma inner_heads t h : In h (app_heads (inner310 t)) -> exists o, In o (ops t) /\ h = hd C310 o /\ iter_op o.
+Proof.
+  induction t as [n|n|a IH|a IH|k v IHk IHv|l IHl|a IH|a IH|a IH] using ty_ind'; cbn [inner310 ops]; intros Hin.
+  - contradiction.
+  - contradiction.
+  - apply heads_mkbar in Hin. rewrite flat_map_app in Hin. apply in_app_or in Hin. destruct Hin as [Hin|Hin]; [|contradiction].
+    apply heads_alts in Hin. destruct (IH Hin) as (o & Ho & E & I1). exists o. split; [right; exact Ho|split; assumption].
+  - cbn [app_heads flat_map] in Hin. destruct Hin as [<-|Hin]; [exists OList; split; [left; reflexivity|split; [reflexivity|split; discriminate]]|].
+    rewrite app_nil_r in Hin. destruct (IH Hin) as (o & Ho & E & I1). exists o. split; [right; exact Ho|split; assumption].
+  - cbn [app_heads flat_map] in Hin. destruct Hin as [<-|Hin]; [exists ODict; split; [left; reflexivity|split; [reflexivity|split; discriminate]]|].
+    rewrite app_nil_r in Hin. apply in_app_or in Hin. destruct Hin as [Hin|Hin].
+    + destruct (IHk Hin) as (o & Ho & E & I1). exists o. split; [right; apply in_or_app; left; exact Ho|split; assumption].
+    + destruct (IHv Hin) as (o & Ho & E & I1). exists o. split; [right; apply in_or_app; right; exact Ho|split; assumption].
+  - apply heads_mkbar in Hin. apply in_flat_map in Hin. destruct Hin as (y & Hy & Hin).
+    apply in_flat_map in Hy. destruct Hy as (a & Ha & Hy).
+    assert (Hin' : In h (app_heads (inner310 a))).
+    { apply heads_alts. apply in_flat_map. exists y. split; assumption. }
+    rewrite Forall_forall in IHl. destruct (IHl a Ha Hin') as (o & Ho & E & I1). exists o.
+    split; [right; apply in_flat_map; exists a; split; assumption|split; assumption].
+  - cbn [app_heads flat_map] in Hin. destruct Hin as [<-|Hin]; [exists OIterable; split; [left; reflexivity|split; [reflexivity|split; discriminate]]|].
+    rewrite app_nil_r in Hin. destruct (IH Hin) as (o & Ho & E & I1). exists o. split; [right; exact Ho|split; assumption].
+  - cbn [app_heads flat_map] in Hin. destruct Hin as [<-|Hin]; [exists OAsyncIterable; split; [left; reflexivity|split; [reflexivity|split; discriminate]]|].
+    rewrite app_nil_r in Hin. destruct (IH Hin) as (o & Ho & E & I1). exists o. split; [right; exact Ho|split; assumption].
+  - cbn [app_heads flat_map] in Hin. destruct Hin as [<-|Hin]; [exists OAsyncIterator; split; [left; reflexivity|split; [reflexivity|split; discriminate]]|].
+    rewrite app_nil_r in Hin. destruct (IH Hin) as (o & Ho & E & I1). exists o. split; [right; exact Ho|split; assumption].
+Qed.
+
+(* membership through the sorted, duplicate-free rendering of import_lines *)
+Lemma in_insert_sorted x y l : In x (insert_sorted y l) <-> x = y \/ In x l.
+Proof.
+  induction l as [|z l IH]; cbn [insert_sorted]; [cbn; intuition congruence|].
+  destruct (str_eqb y z) eqn:E.
+  - apply str_eqb_eq in E. subst z. cbn. intuition congruence.
+  - destruct (str_ltb y z); cbn [In]; [intuition congruence|]. rewrite IH. intuition congruence.
+Qed.
+
+Lemma in_sort_names x l : In x (sort_names l) <-> In x l.
+Proof.
+  induction l as [|y l IH]; [tauto|]. cbn [sort_names fold_right]. fold (sort_names l).
+  rewrite in_insert_sorted, IH. cbn. intuition congruence.
+Qed.
+
+Lemma in_dedup x l : In x (dedup l) <-> In x l.
+Proof.
+  induction l as [|y l IH]; [tauto|]. cbn [dedup In]. rewrite filter_In, IH. split.
+  - intros [H|[H _]]; tauto.
+  - intros [H|H]; [left; exact H|]. destruct (str_eqb y x) eqn:E.
+    + left. apply str_eqb_eq in E. exact E.
+    + right. split; [exact H|reflexivity].
+Qed.
+
+Lemma from_import_lines c adds m n : c <> CRoot -> In (m, n) adds ->
+  In (B "from " ++ m ++ B " import (") (import_lines c adds) /\
+  In (B "    " ++ n ++ B ",") (import_lines c adds).
+Proof.
+  intros Hc Hin.
+  assert (Hm : In m (dedup (map fst adds))) by (apply in_dedup, in_map_iff; exists (m, n); split; [reflexivity|exact Hin]).
+  assert (Hn : In n (sort_names (map snd (filter (fun p => str_eqb (fst p) m) adds)))).
+  { apply in_sort_names, in_map_iff. exists (m, n). split; [reflexivity|]. apply filter_In. split; [exact Hin|apply str_eqb_refl]. }
+  destruct c; [|contradiction Hc; reflexivity|]; cbn [import_lines]; split; apply in_flat_map; exists m; (split; [exact Hm|]).
+  - left. reflexivity.
+  - right. apply in_or_app. left. apply in_map_iff. exists n. split; [reflexivity|exact Hn].
+  - left. reflexivity.
+  - right. apply in_or_app. left. apply in_map_iff. exists n. split; [reflexivity|exact Hn].
+Qed.
+
+(* what it means for the rendered import block to bring a generic's head identifier into scope *)
+Definition bound (c : compiler) (lines : list str) (h : str) : Prop :=
+  match c with
+  | CDirect => In (B "from typing import (") lines /\ In (B "    " ++ h ++ B ",") lines
+  | CRoot => In (B "import typing") lines /\ exists n, h = B "typing." ++ n
+  | C310 => h = B "list" \/ h = B "dict" \/
+            (In (B "from collections.abc import (") lines /\ In (B "    " ++ h ++ B ",") lines)
+  end.
+
+Theorem imports_cover c t h : wf c t ->
+  In h (text_heads (print c t)) -> bound c (import_lines c (ty_adds c t)) h.
+Proof.
+  intros Hwf Hin. unfold text_heads in Hin. rewrite (lex_print c t Hwf) in Hin.
+  rewrite <- (app_nil_r (toks _)) in Hin.
+  destruct (heads_toks _ [] h I Hin) as [Hh|Hh]; [|contradiction].
+  destruct c; cbn [syntax bound] in *.
+  - destruct (plain_heads CDirect t h Hh) as (o & Ho & ->).
+    pose proof (adds_ops CDirect t o Ho (B "typing", op_typing_name o) (or_introl eq_refl)) as Ha.
+    apply (from_import_lines CDirect _ _ _ ltac:(discriminate) Ha).
+  - destruct (plain_heads CRoot t h Hh) as (o & Ho & ->).
+    pose proof (adds_ops CRoot t o Ho (B "typing", []) (or_introl eq_refl)) as Ha.
+    split; [|exists (op_typing_name o); reflexivity].
+    cbn [import_lines]. destruct (ty_adds CRoot t); [contradiction|left; reflexivity].
+  - assert (Hh' : In h (app_heads (inner310 t))) by (destruct t; cbn [syn310 app_heads] in Hh; try contradiction; exact Hh).
+    destruct (inner_heads t h Hh') as (o & Ho & -> & I1 & I2).
+    destruct o; try (contradiction I1; reflexivity); try (contradiction I2; reflexivity);
+      try (left; reflexivity); try (right; left; reflexivity); right; right.
+    + apply (from_import_lines C310 _ (B "collections.abc") (op_typing_name OIterable) ltac:(discriminate)).
+      apply (adds_ops C310 t OIterable Ho). left. reflexivity.
+    + apply (from_import_lines C310 _ (B "collections.abc") (op_typing_name OAsyncIterable) ltac:(discriminate)).
+      apply (adds_ops C310 t OAsyncIterable Ho). left. reflexivity.
+    + apply (from_import_lines C310 _ (B "collections.abc") (op_typing_name OAsyncIterator) ltac:(discriminate)).
+      apply (adds_ops C310 t OAsyncIterator Ho). left. reflexivity.
+Qed.
